@@ -134,7 +134,8 @@ class EffectivePotential(ABC):
         """
 
         # I think we'll need to manually vectorize this in case we got many field/temperature points
-        T = np.atleast_1d(temperature)
+        # Cast to float: an integer temperature would make the result arrays below integer
+        T = np.atleast_1d(temperature).astype(float)
 
         numPoints = max(T.shape[0], initialGuess.numPoints())
 
